@@ -39,7 +39,7 @@ def tree_strategy(depth):
 
 TREE = tree_strategy(3)
 CASE = st.tuples(st.sampled_from(["upload_dir", "upload_dir", "upload_file", "download", "download", "listrec", "remove", "download_here", "upload_twice"]),
-                 TREE, st.sampled_from(["", "d", "d1/d2", "/abs/d", "src"]), st.booleans(),
+                 TREE, st.sampled_from(["", "d", "d1/d2", "/abs/d", "src", "../up"]), st.booleans(),
                  st.sampled_from(["/", "/r", "/r/sub"]), st.sampled_from([1, 3, 8192]), st.booleans(), st.booleans(),
                  st.booleans())
 
@@ -61,6 +61,17 @@ def depth_of(t):
 
 def has_empty_dir(t):
     return any(isinstance(v, dict) and (not v or has_empty_dir(v)) for v in t.values())
+
+
+def norm(p):
+    """Lexical resolution of '..' on the server side (going up stops at the root)."""
+    out = []
+    for part in pathlib.PurePosixPath(p).parts[1:]:
+        if part == "..":
+            del out[-1:]
+        else:
+            out.append(part)
+    return pathlib.PurePosixPath("/", *out)
 
 
 def ancestors(p):
@@ -101,6 +112,8 @@ async def _run(loop, case, info):
     op, t, dest, write_into, cwd, block, listonly, abs_spelling, relsrc = case
     if op == "upload_file" and write_into and dest == "":
         dest = "renamed"  # write_into with an empty destination names no file: not a meaningful call
+    if ".." in dest and op not in ("upload_dir", "upload_file", "upload_twice"):
+        dest = "d"  # (a '..' in a *local* destination is the client file system's business)
     server = aioftp.Server(path_io_factory=aioftp.MemoryPathIO)
     if listonly:
         server.commands_mapping.pop("mlsd")
@@ -145,7 +158,7 @@ async def _run(loop, case, info):
             root = P(cwd) / dest
             if not write_into:
                 root = root / src.name
-            root = str(root)
+            root = str(norm(root))
             exp = dict(before)
             exp.update(ancestors(root))
             if op == "upload_dir":
@@ -172,6 +185,7 @@ async def _run(loop, case, info):
                 root = P(where) / dest
                 if not write_into:
                     root = root / src.name
+                root = norm(root)
                 exp.update(ancestors(str(root)))
                 exp.update(flat(t, str(root)))
             after = harness.mem_tree(server)
